@@ -190,8 +190,9 @@ class MultiHarness:
             self.trainer.to(dtype)
         self.param = "delay" if trainer in LEARNS_DELAY else "weight"
 
-    def step_apply(self, pres, posts, reward=None, scale=1.0):
-        """pres / posts: one spike tensor per connection / neuron group -> one (pos, neg, applied change) per connection"""
+    def step_apply(self, pres, posts, reward=None, scale=1.0, cells=None):
+        """pres / posts: one spike tensor per connection / neuron group -> one (pos, neg, applied change) per connection;
+        cells: names of the cells this trainer call is limited to (three-factor trainers' documented `cells` argument)"""
         if not isinstance(posts, (list, tuple)):
             posts = [posts]
         if self.layer is None:
@@ -201,7 +202,10 @@ class MultiHarness:
             self.layer({f"c{i}": (p,) for i, p in enumerate(pres)},
                        neuron_kwargs={f"n{i}": {"override": q} for i, q in enumerate(posts)})
         if self.name in THREE_FACTOR:
-            self.trainer(reward, scale)
+            if cells is None:
+                self.trainer(reward, scale)
+            else:
+                self.trainer(reward, scale, cells=cells)
         else:
             self.trainer()
         out = []
